@@ -445,7 +445,7 @@ def ref_template_errors(cmd, values, nin, nout):
     return False
 
 
-def ob_templates(nargs, affix=True):
+def ob_templates(nargs, affix=True, wide=True):
     def h():
         nin = 1 + choose(2, 'ninputs'); nout = 1 + choose(2, 'noutputs')
         inputs = ['src/in0.c', 'in1.txt'][:nin]; outputs = ['out/o0.h', 'out/o1.c'][:nout]
@@ -455,8 +455,8 @@ def ob_templates(nargs, affix=True):
             if not affix:
                 # several arguments, each a bare token or 'x=' + token: the checks that look at EVERY argument (an index out of range in a later one)
                 cmd.append(['', 'x='][choose(2, 'embedded%d' % i)] + TOKENS[choose(len(TOKENS), 'token%d' % i)]); continue
-            pre = sym_str(choose(3, 'prelen%d' % i), 'pre%d' % i, alphabet='aA@ $')          # 'A': an unknown upper-case @NAME@ run that shares its closing @ with a real template
-            post = sym_str(choose(2, 'postlen%d' % i), 'post%d' % i, alphabet='aA@ $')
+            pre = sym_str(choose(3 if wide else 2, 'prelen%d' % i), 'pre%d' % i, alphabet='aA@ $' if wide else 'a@ $')          # 'A': an unknown upper-case @NAME@ run that shares its closing @ with a real template
+            post = sym_str(choose(2, 'postlen%d' % i), 'post%d' % i, alphabet='aA@ $' if wide else 'a@ $')
             cmd.append(pre + TOKENS[choose(len(TOKENS), 'token%d' % i)] + post)
         try:
             got = mesonlib.substitute_values(list(cmd), values)
@@ -712,7 +712,7 @@ def obligations(tier):
         out.append(Obligation('exe-wrapper-argv%s' % lens, ob_wrapper_argv(lens, WOPT if max(lens) > 2 else '-hcfu=x'), dict(arg_lengths=lens, modes='capture | feed | both', alphabet=WOPT,
                               argparse='stdlib, executed symbolically'), labels=('parsed',), optional_labels=('pickled',), max_paths=5000000))
     for n in (1,) if q else (1, 2):
-        out.append(Obligation('templates[%d]' % n, ob_templates(n), dict(arguments=n, shape='0-2 chars over {a, A, @, space, $} + one of %d template tokens (or none) + 0-1 chars' % len(TOKENS),
+        out.append(Obligation('templates[%d]' % n, ob_templates(n, True, n == 1), dict(arguments=n, shape=('0-2 chars over {a, A, @, space, $}' if n == 1 else '0-1 chars over {a, @, space, $}') + ' + one of %d template tokens (or none) + 0-1 chars' % len(TOKENS),
                               inputs='1-2', outputs='1-2'), labels=('substituted', 'rejected'), max_paths=5000000))
     out.append(Obligation('templates-tokens[2]', ob_templates(2, False), dict(arguments=2, shape="each a template token or 'x=' + token, %d tokens" % len(TOKENS), inputs='1-2', outputs='1-2'), labels=('substituted', 'rejected'), max_paths=5000000))
     for lens in ([1], [2], [1, 1]) if q else ([1], [2], [3], [1, 1], [2, 2]):
